@@ -71,7 +71,7 @@ Lemma dash_model_total eps off d L : 0 <= eps -> dash_model eps off d L <> DFuel
 Proof.
   intros Heps. unfold dash_model, dash_gen.
   destruct (dash_canonical eps off d) as [off' c] eqn:Ec.
-  destruct (canon_shape_ok eps Heps _ _ _ _ Ec) as [[Hc Ho]|[[Hc Ho]|(Hb & Hne & Hs)]]; subst; try discriminate.
+  destruct (canon_shape_ok eps _ _ _ _ Ec) as [[Hc Ho]|[[Hc Ho]|(Hb & Hne & Hs)]]; subst; try discriminate.
   assert (Hn : is_nil c = false) by (destruct c; [congruence|reflexivity]).
   rewrite Hn, (big_not_zero1 eps Heps c Hb).
   destruct (dash_start off' (dbl c)) as [i0 pos0] eqn:Es.
